@@ -108,6 +108,10 @@ async fn run_case(c: &Case) -> Result<Outcome, String> {
             } else if s.write_all(phase).await.is_err() {
                 return replies;
             }
+            if cc.early == 3 && last {
+                // the sender has said all it has to say: it closes its writing side right behind the request and reads on
+                let _ = s.shutdown().await;
+            }
             // wait for this phase's reply (plain HTTP has none)
             if !matches!(cc.kind, Kind::Plain) {
                 match tokio::time::timeout(Duration::from_millis(1500), s.read(&mut buf)).await {
@@ -116,7 +120,9 @@ async fn run_case(c: &Case) -> Result<Outcome, String> {
                 }
             }
         }
-        let _ = s.write_all(&cc.payload).await;
+        if cc.early != 3 {
+            let _ = s.write_all(&cc.payload).await;
+        }
         tokio::time::sleep(Duration::from_millis(400)).await;
         replies
     });
@@ -144,7 +150,7 @@ async fn run_case(c: &Case) -> Result<Outcome, String> {
 
 fn judge(rep: &mut Report, c: &Case, o: Outcome, seed: u64, idx: u64) {
     let kind = format!("{:?}", c.kind);
-    let seg = if c.early == 1 { "early-data" } else if c.early == 2 { "all-in-one-segment" } else if c.cuts.is_empty() { "whole" } else if c.cuts.len() == 1 { "one-cut" } else { "many-cuts" };
+    let seg = if c.early == 1 { "early-data" } else if c.early == 2 { "all-in-one-segment" } else if c.early == 3 { "sender-half-closes-behind-the-request" } else if c.cuts.is_empty() { "whole" } else if c.cuts.len() == 1 { "one-cut" } else { "many-cuts" };
     let w = |extra: serde_json::Value| json!({"seed": seed, "index": idx, "label": c.label, "request": c.phases.iter().map(|p| String::from_utf8_lossy(p).chars().take(160).collect::<String>()).collect::<Vec<_>>(), "request_hex": c.phases.iter().map(|p| hex_short(p)).collect::<Vec<_>>(), "cuts": c.cuts, "detail": extra});
     rep.mon("handshakes_run", 1);
     match (&c.expect, &o.result) {
@@ -337,6 +343,21 @@ pub fn run(a: &Args) -> Report {
             x.payload = rng.bytes(size);
             early.push(x);
         }
+    }
+    // a sender that closes its writing side right behind a complete request (printf ... | nc -N, HTTP/1.0-style clients)
+    // and reads on: the request is as well-formed as before
+    let mut taken = std::collections::HashMap::new();
+    for c in cases[..whole].iter().filter(|c| c.expect.is_some()) {
+        let k = format!("{:?}/{}", c.kind, c.label);
+        let n = taken.entry(k).or_insert(0usize);
+        if *n >= if a.thorough { 40 } else { 8 } {
+            continue;
+        }
+        *n += 1;
+        let mut x = c.clone();
+        x.early = 3;
+        x.payload = vec![];
+        early.push(x);
     }
     let n_early = early.len();
     cases.extend(early);
